@@ -73,6 +73,9 @@ def make_scenario(seed, idx, U, si=False):
     # ids where a later (pending) id is a substring of an earlier (already listed) one, and the reverse
     pool = ["u2", "utt3", "a-b", "u21", "utt30", "x.y"]
     extra = [pool[i] for i in rng.permutation(len(pool))[:max(0, U - 3)]]
+    if extra and idx % 2 == 0:
+        # ids with characters outside ASCII (speaker names): a manifest line is longer in bytes than in characters
+        extra[0] = ["spk_\u00e9%d" % (idx % 7), "\u8a71\u8005%d" % (idx % 5)][(idx // 2) % 2]
     ids = ["u12"] + extra
     ids.insert(int(rng.integers(1, len(ids) + 1)), "u1")
     ids.insert(int(rng.integers(0, len(ids) + 1)), "u")
